@@ -340,7 +340,7 @@ func cli(c *cas) *core.Verdict {
 	if c.K == 0 {
 		c.K = 4
 	}
-	for _, format := range []string{"tree", "types", "types --types_debug --types_verbose"} {
+	for _, format := range []string{"tree", "types", "types --types_verbose", "types --types_debug --types_verbose"} {
 		first := ""
 		orders := [][]string{files}
 		if len(files) > 1 {
@@ -450,6 +450,23 @@ func check(r *core.Run) {
 			"ib":            mk("ib", "", map[string]string{"bb": "bb"}, leaf("l")),
 		}}}
 		b, _ := json.Marshal(two)
+		cliCases = append(cliCases, b)
+		// types that are told apart only by where they are defined: same name, kind and restriction in three modules and
+		// in an inner scope; every rendering (plain, debug, verbose) lists them in the same order in every run
+		st := func(kw, arg string, kids ...schema.Stmt) schema.Stmt {
+			if kids == nil {
+				kids = []schema.Stmt{}
+			}
+			return schema.Stmt{Kw: kw, Arg: json.RawMessage(fmt.Sprintf("%q", arg)), Kids: kids}
+		}
+		percent := func() schema.Stmt { return st("typedef", "percent", st("type", "uint8", st("range", "0..100"))) }
+		use := func(n string) schema.Stmt { return st("leaf", n, st("type", "percent")) }
+		same := cas{K: 12, Cli: bin, Prog: schema.Prog{Mods: map[string]schema.Module{
+			"ta": mk("ta", "", map[string]string{}, percent(), use("la"), st("container", "inner", percent(), use("li"))),
+			"tb": mk("tb", "", map[string]string{}, percent(), use("lb"), st("leaf", "anon", st("type", "uint8", st("range", "0..100")))),
+			"tc": mk("tc", "", map[string]string{}, percent(), use("lc"), st("leaf", "anon2", st("type", "uint8", st("range", "0..100")))),
+		}}}
+		b, _ = json.Marshal(same)
 		cliCases = append(cliCases, b)
 	}
 	if len(cliCases) > 0 {
